@@ -175,3 +175,43 @@ Proof.
   split; [reflexivity|]. split; [reflexivity|]. split; [apply IdleJointRun.JL_ready|].
   vm_compute. reflexivity.
 Qed.
+
+(** the joint system on a request with one Go field: {a} with a: apifu.Go(...) resolving to 7.
+    The plan has no prefilled promise, one asynchronous field, [ex2_prog] (a Go and a Batch item)
+    has an item for it; the root future is pending after construction and still pending after the
+    first poll, so the joint run goes through the idle handler (at least one LTS round); it exists
+    and its response is the all-synchronous one. *)
+From ApiFu Require Idle.IdleJointTotal Fut.NoPrefill Fut.FutProofs Fut.ExecSync Fut.FutSpec.
+Definition go_plan : Plan.selset := [([97%N], Plan.FP (Some 0%N) false (Some (Plan.VLeaf 7%Z)))].
+
+Example go_plan_hyps :
+  NoPrefill.nopre go_plan = true /\ Plan.count_async go_plan = 1 /\
+  Plan.count_async go_plan <= length (p_items ex2_prog) /\ FutProofs.resp_depth go_plan < 5.
+Proof. vm_compute. repeat split; repeat constructor. Qed.
+
+Example go_plan_needs_the_handler :
+  match ExecAsync.exec_sel ExecAsync.fixed_flags go_plan [] ExecAsync.st0 with
+  | (Future.Pending c, s1) =>
+      match ExecAsync.invoke ExecAsync.fixed_flags (Future.CMap ExecAsync.wait_fn c) s1 with
+      | (_, None, _) => True
+      | _ => False
+      end
+  | _ => False
+  end.
+Proof. vm_compute. exact I. Qed.
+
+Example go_plan_joint_run :
+  (exists cs resp, IdleJointRun.JRun ex2_prog current go_plan 5 cs resp) /\
+  forall cs resp, IdleJointRun.JRun ex2_prog current go_plan 5 cs resp ->
+    ExecAsync.r_data resp = ExecSync.sr_data (ExecSync.run_sync go_plan) /\
+    FutSpec.conforms go_plan (ExecAsync.r_data resp) (ExecAsync.r_errors resp).
+Proof.
+  destruct go_plan_hyps as [H1 [_ [H3 H4]]].
+  destruct ex2_round_runs as [WFX _].
+  split.
+  - apply (IdleJointTotal.joint_run_exists ex2_prog WFX); auto.
+    + intros k l. simpl. apply map_length.
+    + exact ex2_no_chaining.
+    + exact ex2_flat.
+  - intros cs resp. apply IdleJointRun.response_eq_sync. exact H4.
+Qed.
